@@ -167,6 +167,8 @@ def live_containers(n, e0, e1, e2, cmd0, cmd1, cmd2, cmd3, cmd4, d0, d1, d2, all
                     for j in range(n):
                         if before[j] in (S.COMPLETED, S.RUNNING, S.ASSIGNED, S.SUSPENDING) and ops[j].state() != before[j]:
                             return "C02:refused_assignment_changed_busy_operator"
+                    if not want:
+                        path_done()
                     return "" if not want else ("REACHED" if want in seen else "")
         elif cmd == 8:
             if pool.active_containers:
@@ -178,6 +180,8 @@ def live_containers(n, e0, e1, e2, cmd0, cmd1, cmd2, cmd3, cmd4, d0, d1, d2, all
             for j in range(n):
                 if before[j] == S.COMPLETED and ops[j].state() != S.COMPLETED:
                     return "C02:completed_changed_on_refused_tick"
+            if not want:
+                path_done()
             return "" if not want else ("REACHED" if want in seen else "")
         if sus:
             seen.add("suspended")
